@@ -67,6 +67,13 @@ def n_0a : Str := [48, 97]   -- 0a
 def n_09 : Str := [48, 57]   -- 09
 #guard Str.toString n_09 == "09"
 
+def n_10d0 : Str := [49, 48, 46, 48]   -- 10.0
+#guard Str.toString n_10d0 == "10.0"
+def n_3d0 : Str := [51, 46, 48]   -- 3.0
+#guard Str.toString n_3d0 == "3.0"
+def n_4d0 : Str := [52, 46, 48]   -- 4.0
+#guard Str.toString n_4d0 == "4.0"
+
 /-! ## which names are accepted; the model's recursion bound -/
 
 /-- Every name that does not start with `-` or `+` is accepted, and so is every name with at least two
@@ -1142,5 +1149,15 @@ theorem C10_boundary_witness :
     stdCompare false n_1d80 n_1d8a = .ok (-1) ∧
     stdCompare false n_0a n_1 = .ok (-1) ∧ stdCompare false n_1 n_09 = .ok (-1) ∧ stdCompare false n_09 n_0a = .ok (-1) ∧
     convName n_1d8a = false ∧ convName n_0a = false ∧ convName n_1d80 = true ∧ convName n_09 = true := by decide
+
+/-- D5c, the pinned `distrib.Repositories.findPackage(product, Tag("latest"))`: over package repositories whose latest
+versions are `10.0`, `3.0`, `4.0` it answered `4.0` (the candidate was replaced when it was *later* than the next
+repository's latest, and the next one returned on the spot otherwise) — not the maximum.  Repaired (`fix-g10`): the
+loop over the repositories is `latestAcross`, for which `C10_latest_across_is_max` holds. -/
+theorem C10_latest_repos_witness :
+    latestReposPinned 1 [[n_10d0], [n_3d0], [n_4d0]] = .ok (some (2, n_4d0)) ∧
+    latestReposPinned 2 [[n_10d0], [n_3d0], [n_4d0]] = .ok (some (2, n_4d0)) ∧
+    latestAcross [[n_10d0], [n_3d0], [n_4d0]] = .ok (some (0, n_10d0)) ∧
+    stdCompare false n_4d0 n_10d0 = .ok (-1) := by decide
 
 end EupsModel.C10
